@@ -118,6 +118,10 @@ def build(scratch_root=None, models=None, shared_prelude=True):
                 f'\n#[cfg(kani)]\n#[path = "{hfile}"]\npub(crate) mod verif_{name};\n'
             )
         info["appended"].append(rel)
+    # nightly library feature needed to *name* `Vec<T, A>` in a stub signature (cfg(kani) only)
+    lib = os.path.join(ov, "mla", "src", "lib.rs")
+    src = open(lib).read()
+    open(lib, "w").write("#![cfg_attr(kani, feature(allocator_api))]\n" + src)
     # shared helpers (abstract streams, cheap stubs) live in the crate root of mla
     common = os.path.join(VERIF, "harness", "common.rs")
     if shared_prelude and os.path.isfile(common):
